@@ -52,21 +52,23 @@ def Skel.good (s : Skel) : Bool :=
   s.chanCapIsChainLen && s.closeDeferred && !s.forks.isEmpty && s.forks.all (· == goodFork) &&
   s.waitAfterLoop && s.selectAfterWait
 
-/-- what a per-certificate check evaluates to -/
-inductive Res where
-  | val (r : Nat)
+/-- what a per-certificate check evaluates to (`α`: the type of a per-certificate result) -/
+inductive Res (α : Type) where
+  | val (r : α)
   | panic (p : Nat)
 deriving Repr, DecidableEq, Inhabited
 
-structure Env where
+structure Env (α : Type) where
   /-- number of goroutines: chain length - 1 -/
   m : Nat
-  f : Nat → Res
+  f : Nat → Res α
+  /-- the fixed entry stored in the last slot (the root is never revoked) -/
+  root : α
 
-inductive TPc where
+inductive TPc (α : Type) where
   | unborn                      -- not spawned yet
   | ready                       -- spawned, the check has not run
-  | haveVal (r : Nat)           -- the check returned, `results[i] = r` not yet executed
+  | haveVal (r : α)             -- the check returned, `results[i] = r` not yet executed
   | panicking (p : Nat)         -- the check panicked; the deferred recover has not run yet
   | epilogue                    -- body and recover-defer over, `wg.Done()` not yet executed
   | finished
@@ -81,9 +83,9 @@ inductive MPc where
   | repanicked (p : Nat)
 deriving Repr, DecidableEq, Inhabited
 
-structure State where
-  tasks : Nat → TPc
-  slots : Nat → Option Nat
+structure State (α : Type) where
+  tasks : Nat → TPc α
+  slots : Nat → Option α
   wg : Nat
   chan : List Nat
   main : MPc
@@ -97,17 +99,14 @@ inductive Tid where
   | task (i : Nat)
 deriving Repr, DecidableEq, Inhabited
 
-def init : State :=
+def init {α : Type} : State α :=
   { tasks := fun _ => .unborn, slots := fun _ => none, wg := 0, chan := [], main := .spawning 0, closed := false, crashed := false }
 
-/-- the marker stored in the last slot (the root is never revoked) -/
-def rootMark : Nat := 0
-
-def setTask (s : State) (i : Nat) (pc : TPc) : State := { s with tasks := fun j => if j = i then pc else s.tasks j }
-def setSlot (s : State) (i : Nat) (r : Nat) : State := { s with slots := fun j => if j = i then some r else s.slots j }
+def setTask {α : Type} (s : State α) (i : Nat) (pc : TPc α) : State α := { s with tasks := fun j => if j = i then pc else s.tasks j }
+def setSlot {α : Type} (s : State α) (i : Nat) (r : α) : State α := { s with slots := fun j => if j = i then some r else s.slots j }
 
 /-- one atomic action of thread `t`; `none` = not enabled -/
-def step (e : Env) (s : State) : Tid → Option State
+def step {α : Type} (e : Env α) (s : State α) : Tid → Option (State α)
   | .main =>
     match s.main with
     | .spawning k =>
@@ -115,7 +114,7 @@ def step (e : Env) (s : State) : Tid → Option State
         -- wg.Add(1); go …
         some { (setTask s k .ready) with wg := s.wg + 1, main := .spawning (k + 1) }
       else some { s with main := .storeLast }
-    | .storeLast => some { (setSlot s e.m rootMark) with main := .waiting }
+    | .storeLast => some { (setSlot s e.m e.root) with main := .waiting }
     | .waiting => if s.wg = 0 then some { s with main := .selecting } else none
     | .selecting =>
       match s.chan with
@@ -145,19 +144,19 @@ def step (e : Env) (s : State) : Tid → Option State
     else none
 
 /-- states reachable under some schedule -/
-inductive Reachable (e : Env) : State → Prop where
+inductive Reachable {α : Type} (e : Env α) : State α → Prop where
   | init : Reachable e init
-  | step (s s' : State) (t : Tid) : Reachable e s → step e s t = some s' → Reachable e s'
+  | step (s s' : State α) (t : Tid) : Reachable e s → step e s t = some s' → Reachable e s'
 
 /-- running a schedule (a list of thread ids); steps that are not enabled are skipped -/
-def runSched (e : Env) : State → List Tid → State
+def runSched {α : Type} (e : Env α) : State α → List Tid → State α
   | s, [] => s
   | s, t :: ts =>
     match step e s t with
     | some s' => runSched e s' ts
     | none => runSched e s ts
 
-def terminal (s : State) : Bool :=
+def terminal {α : Type} (s : State α) : Bool :=
   match s.main with
   | .returned => true
   | .repanicked _ => true
